@@ -364,9 +364,23 @@ def check_C14(tier, seed):
     docs = docfam.doc_instances(seqs, seed)
     multi = [copy.deepcopy(i) for i in insts if len(i["args"]) >= 2][: (150 if tier == "quick" else 1500)]
     for i in multi: i["args"] = {"zz_b": G.I(1), "zz_a": G.I(2), "zz_c": G.S("x")}; i["rawargs"] = True
+    # history: the same query text compiled against several schemas that differ only in a default value, each schema parsed for that instance alone
+    # and dropped afterwards; processes see them in different orders, so anything remembered across compilations (by text, by address) shows
+    import foldfam, lib as GL
+    sc1 = GL.VS1(); hg = foldfam.fold_graph(sc1, 5); hist = []
+    texts = [GL.edge_node("NodesFrom", props=[GL.prop_node("id", outputs=["rid"])]),
+             GL.edge_node("NodesFrom", props=[GL.prop_node("id", outputs=["rid"]), GL.prop_node("val", filters=[GL.FVar(">=", "v")])], edges=[GL.edge_node("next", "fold", props=[GL.prop_node("val", outputs=["nv"])])]),
+             GL.edge_node("NodesFrom", props=[GL.prop_node("name", outputs=["n"])], edges=[GL.edge_node("peer", "optional", props=[GL.prop_node("id", outputs=["p"])])])]
+    for rep in range(2):
+        for j in (0, 2, 1, 3, 4):
+            for q in texts:
+                x = GL.make_instance(0, sc1, hg, q, {"v": GL.I(1)} if "$v" in GL.render_query(q) else {}, cls={"family": "history", "default": j})
+                x["sdl"] = x["sdl"].replace("min: Int! = 0", f"min: Int! = {j}"); x["freshSchema"] = True
+                assert f"= {j}" in x["sdl"]
+                hist.append(x)
     # near-valid queries: most are rejected, many with several errors raised at different vertices (their order must be stable too)
     mut = universe.mutated_universe(tier, seed + 800)
-    insts = universe.renumber(insts + docs + multi + mut)
+    insts = universe.renumber(insts + docs + multi + mut + hist)
     nproc = 3 if tier == "quick" else 8
     ip = os.path.join(wd, "inst.ndjson"); write_ndjson(ip, insts)
     rp = os.path.join(wd, "inst.rev.ndjson"); write_ndjson(rp, list(reversed(insts)))
